@@ -688,3 +688,39 @@ func FreeOverflowThenShutdown(rng *Rng) (string, Cfg) {
 	c.CloseAfter = rng.Intn(2)
 	return "free-overflow-then-shutdown", c
 }
+
+// FreeReentrantConsumer: the consumers re-enter the connection: the inbound consumer answers
+// every packet it takes with a reply sent through pkt.Endpoint(); the error-channel consumer
+// calls Close on the endpoint named in the terminal error.
+func FreeReentrantConsumer(rng *Rng) (string, Cfg) {
+	c := base(rng, 0)
+	var g idGen
+	n := rng.Range(1, 30)
+	c.Input = inputFrames(rng, n, smallSizes)
+	if rng.Chance(1, 3) {
+		c.Input = append(c.Input, InItem{rng.PickInt(1, 2, 4), 7000, 9})
+	}
+	c.Senders = [][]PktSpec{g.pkts(rng, rng.Range(0, 20), smallSizes), g.pkts(rng, n, smallSizes)}
+	c.Closers = []bool{true, true}
+	c.Ocap = rng.PickInt(2, 8, 128)
+	c.Icap = rng.PickInt(1, 4, 64)
+	c.Ecap = rng.PickInt(1, 4)
+	c.Reentrant = 1
+	c.WaitInput = 1
+	c.PeerRead = rng.Intn(3)
+	return "free-reentrant-consumer", c
+}
+
+// FreePhases: fill the queue (overflows), let it drain, use it again, several times; then Close.
+func FreePhases(rng *Rng) (string, Cfg) {
+	c := base(rng, 0)
+	var g idGen
+	c.Ocap = rng.PickInt(1, 2, 8)
+	c.Senders = [][]PktSpec{g.pkts(rng, rng.Range(20, 80), smallSizes)}
+	c.BurstEvery = c.Ocap * rng.PickInt(1, 2, 3)
+	c.Closers = []bool{true}
+	c.PeerRead = rng.Intn(2)
+	c.Input = inputFrames(rng, rng.Range(0, 5), smallSizes)
+	c.WaitInput = 1
+	return "free-phases", c
+}
